@@ -373,6 +373,9 @@ def check(run):
             run.check((bool(cs) and q.on_all_paths(f, cs)) or direct, 'R6-ABORT', 'timer-rearm-cancels', TIMER + '::' + name, f.loc(),
                       '%s has a path that does not go through cancel(): the outstanding wait is neither completed nor aborted, and the next async_wait() silently overwrites its handler' % name,
                       'cancel() on every path')
+    run.clause('a pending operation moves with its socket: the move constructors initialise every handler slot (and every other field) from the SAME field of the source (shared with C12)')
+    import p12 as _p12m
+    _p12m.move_ctor_rules(run, ((TCP, 'tcp'), (UDP, 'udp')))
     run.clause('cancelling or re-arming one timer never takes ANOTHER timer\'s wait off the queue: remove_timer erases exactly the timer asked for among equal expiries (shared with C03/C12)')
     import p12 as _p12
     _p12.remove_timer_rule(run)
